@@ -211,23 +211,35 @@ func (s *Service) Message(ctx context.Context, duty *synccommitteemessenger.Duty
 		return msgs, nil
 	}
 
-	sigs, err := s.contributions(ctx, accounts, s.chainTimeService.SlotToEpoch(duty.Slot()), *beaconBlockRoot)
-	if err != nil {
-		s.log.Error().Err(err).Msg("Failed to sign sync committee messages")
-		return nil, errors.Wrap(err, "failed to sign sync committee messages")
-	}
-
+	// Only pass the accounts we have to the signer; validators without an account do not stop the others.
+	signingAccounts := make([]e2wtypes.Account, 0, countActive)
+	signingIndices := make([]int, 0, countActive)
 	for i, account := range accounts {
 		if account == nil {
 			continue
 		}
-		signature := sigs[i]
+		signingAccounts = append(signingAccounts, account)
+		signingIndices = append(signingIndices, i)
+	}
+
+	sigs, err := s.contributions(ctx, signingAccounts, s.chainTimeService.SlotToEpoch(duty.Slot()), *beaconBlockRoot)
+	if err != nil {
+		s.log.Error().Err(err).Msg("Failed to sign sync committee messages")
+		return nil, errors.Wrap(err, "failed to sign sync committee messages")
+	}
+	if len(sigs) != len(signingAccounts) {
+		return nil, errors.New("failed to sign sync committee messages; incorrect number of signatures received")
+	}
+
+	for j, i := range signingIndices {
+		signature := sigs[j]
 		if signature.IsZero() {
+			// No signature for this validator; the others still send their messages.
 			s.log.Error().
 				Uint64("slot", uint64(duty.Slot())).
 				Uint64("validator_index", uint64(validatorIndices[i])).
 				Msg("Failed to sign sync committee message; received zero signature")
-			return nil, errors.New("failed to sign sync committee message; received zero signature")
+			continue
 		}
 		s.log.Trace().
 			Uint64("slot", uint64(duty.Slot())).
@@ -242,6 +254,10 @@ func (s *Service) Message(ctx context.Context, duty *synccommitteemessenger.Duty
 			Signature:       signature,
 		}
 		msgs = append(msgs, msg)
+	}
+
+	if len(msgs) == 0 {
+		return msgs, nil
 	}
 
 	if err := s.syncCommitteeMessagesSubmitter.SubmitSyncCommitteeMessages(ctx, msgs); err != nil {
